@@ -18,6 +18,9 @@ FEATS = [
     dict(naux=(1, 3), p_condaux=0.7, nframes=(3, 7), p_nest=0.75, ngo=(0, 2), nplan=(4, 9), ticks=(12, 24), p_uncond_go=0.03),
     dict(naux=(2, 4), p_condaux=0.6, p_aux=0.2, nframes=(3, 7), p_nest=0.75, ngo=(0, 2), nplan=(4, 9), ticks=(12, 24),
          p_stop_bid_mid=0.4, p_let=0.15),
+    # nested suspensions: conditional auxes on several frames of one chain, the lower ones started first
+    # (vf.flo.gen.nested_condaux_program)
+    dict(family="nested"),
 ]
 
 
@@ -32,4 +35,5 @@ def worker(ctx, job):
 def run(ctx):
     common.flo_run(ctx, FEATS, 500, 30000, {
         "cond_aux_activations": 50, "cond_aux_immediate": 10, "cond_aux_later_or_never": 10, "cond_aux_completions": 10,
-        "main_exited_while_suspended": 10, "later_clauses_skipped": 10, "runs_while_aux_running": 100, "resumed_same_tick": 5})
+        "main_exited_while_suspended": 10, "later_clauses_skipped": 10, "runs_while_aux_running": 100, "resumed_same_tick": 5,
+        "nested_lower_aux_suspended": 100, "nested_running_conditional_auxes": 300})
